@@ -406,4 +406,79 @@ class ConcurrentStrings(Part):
             ctx.violation(clause, sig, detail)
 
 
-PARTS = [Algebra(), RoundTrip(), Hashing(), ConcurrentStrings()]
+class ObjectHistories(Part):
+    name = "object-histories"
+    rule = ("a pool of 3 style objects and 4-12 operations on pool members, each result joining the pool: a + b, a.update_link(url / None), a.copy(), a.without_color, "
+            "Style.parse(str(a)), Style.combine / chain of members, rendering a member (which fills its caches); after every operation the result and every pool member "
+            "(operands are reused by identity) is compared field by field with a reference merge on plain dicts, equal members must hash equally; non-trivial = a sum "
+            "whose operands were both used in an earlier sum or derivation")
+    budget = {"quick": (8, 1500), "thorough": (16, 15000)}
+
+    def strategy(self, tier):
+        i = st.integers(0, 11)
+        link = st.sampled_from(["https://a.example", "https://b.example/x", None])
+        op = st.one_of(st.tuples(st.just("add"), i, i), st.tuples(st.just("add"), i, i), st.tuples(st.just("add"), st.integers(0, 3), st.integers(0, 3)), st.tuples(st.just("link"), i, link), st.tuples(st.just("link"), st.integers(0, 3), link),
+                       st.tuples(st.just("copy"), i), st.tuples(st.just("nocolor"), i), st.tuples(st.just("reparse"), i), st.tuples(st.just("combine"), st.lists(i, min_size=1, max_size=3)), st.tuples(st.just("render"), i)).map(list)
+        sp = st.one_of(st.sampled_from(GS.PALETTE), GS.style_spec(max_attrs=3), GS.style_spec(max_attrs=3, links=False))
+        return st.builds(lambda pool, ops: {"pool": pool, "ops": ops}, st.lists(sp, min_size=3, max_size=3), st.lists(op, min_size=4, max_size=12))
+
+    def check(self, spec, ctx):
+        from rich.style import Style
+        from rich.color import ColorSystem
+
+        pool = [(sut(GS.build_style, sp), sp) for sp in spec["pool"]]
+        used = set()
+        reused_sum = False
+        for step, op in enumerate(spec["ops"]):
+            k = op[0]
+            if k == "combine":
+                members = [pool[j % len(pool)] for j in op[1]]
+                obj = sut(Style.combine, [m[0] for m in members])
+                model = GS.merge(*[m[1] for m in members])
+            else:
+                a, am = pool[op[1] % len(pool)]
+                if k == "add":
+                    b, bm = pool[op[2] % len(pool)]
+                    obj = sut(lambda: a + b)
+                    model = GS.merge(am, bm)
+                    if (op[1] % len(pool)) in used and (op[2] % len(pool)) in used:
+                        reused_sum = True
+                    used.add(op[1] % len(pool))
+                    used.add(op[2] % len(pool))
+                elif k == "link":
+                    obj = sut(a.update_link, op[2])
+                    model = dict(am, link=op[2])
+                    used.add(op[1] % len(pool))
+                elif k == "copy":
+                    obj = sut(a.copy)
+                    model = dict(am)
+                    used.add(op[1] % len(pool))
+                elif k == "nocolor":
+                    obj = sut(lambda: a.without_color)
+                    model = dict(am, color=None, bgcolor=None)
+                    used.add(op[1] % len(pool))
+                elif k == "reparse":
+                    obj = sut(Style.parse, sut(str, a))
+                    model = dict(am)
+                else:
+                    sut(a.render, "x", color_system=ColorSystem.TRUECOLOR)
+                    continue
+            desc = "step %d %r of %r on pool %r" % (step, op, spec["ops"], spec["pool"])
+            if GS.style_view(obj) != GS.spec_view(model):
+                which = [n for n, x, y in zip(("attributes", "color", "bgcolor", "link"), GS.style_view(obj), GS.spec_view(model)) if x != y]
+                ctx.violation("right-hand-wins", "C06/history/" + "+".join(which), "%s: the result is %r, the reference merge gives %r" % (desc, GS.style_view(obj), GS.spec_view(model)))
+                return
+            pool.append((obj, model))
+            for idx, (o, m) in enumerate(pool):
+                if GS.style_view(o) != GS.spec_view(m):
+                    ctx.violation("right-hand-wins", "C06/history/operand-changed", "%s: pool member %d changed to %r (it was %r)" % (desc, idx, GS.style_view(o), GS.spec_view(m)))
+                    return
+                if o == obj and hash(o) != hash(obj):
+                    ctx.violation("hash", "C06/history/hash", "%s: pool member %d equals the result but hashes differently" % (desc, idx))
+                    return
+        if reused_sum:
+            ctx.nontrivial = True
+        ctx.cls("reused-operands" if reused_sum else "fresh-operands")
+
+
+PARTS = [Algebra(), RoundTrip(), Hashing(), ConcurrentStrings(), ObjectHistories()]
